@@ -22,7 +22,7 @@ CHECKS = {
          "repetition, predicates consume nothing): for every table meeting the stated conditions (atoms whose meaning depends on the byte offset only, void actions), every input, "
          "apply mode, rewind mode and fuel, the result and the consumed prefix are the ones Sem derives (C01_sound, by induction on fuel over closure lemmas for all rule kinds); Sem is "
          "deterministic (so 'exactly'); consequently the outcome is independent of apply mode, requested rewind mode, attached void actions, control visibility and fuel (C01_independent). "
-         "Termination whenever Sem derives an outcome (completeness) is not yet part of the registered theorems. The model is tied to /repo by the full-trace differential run; the "
+         "Totality: for tables certified by the analysis model (problems = 0, C11) Sem derives an outcome for every rule from every state, some fuel suffices, and every returning run returns exactly that outcome (C01_total). The model is tied to /repo by the full-trace differential run; the "
          "independent oracle is the spec evaluator semEval (proved sound for Sem) against the real result."),
    note=GENERAL_NOTE + " The completeness direction (Sem derives an outcome => the run terminates) is so far only explored (every corpus case on which semEval terminates is compared), not proved.",
    technique="Lean 4 refinement proof (model => PEG big-step semantics) + determinism; differential correspondence; spec-evaluator oracle"),
@@ -150,8 +150,8 @@ CHECKS = {
          "invocation tree (run_tree) and the machine returns exactly the declarative surviving derivation of that tree (C12_tree via run_specT): nodes = successful invocations of selected rules all of whose enclosing invocations "
          "succeeded (inside a succeeding at<> included), in order and nesting, begin/end = cursor at entry/return; nothing from a failed or exception-aborted invocation (C12_failed_contributes_nothing); unselected rules contracted "
          "(C12_unselected_contracted); tree iff the parse succeeds (C12_iff); store / remove_content / fold_one / discard_empty exactly as documented (C12_remove_content, C12_fold_one_*, C12_discard_empty_*)."),
-   note=GENERAL_NOTE + " Partial: the soundness of the compile-time leaf optimisation (no selected rule is ever invoked below a rule with is_leaf< 8 >) is a hypothesis of C12_tree (leafOKT), discharged for the no-optimisation classification (C12_no_optimisation) "
-        "and evaluated on the model trace of every explored run (evidence: leaf_optimisation_side_condition), not yet derived from the static classification. Positional containment of children holds only outside look-ahead / rematch and is checked by the oracle "
+   note=GENERAL_NOTE + " The soundness of the compile-time leaf optimisation is a hypothesis of the general C12_tree (leafOKT) and is *proved* for the real classification on grammars without match()-carrying action classes "
+        "(C12_tree_static, C12_leaf_optimisation_invisible: every invocation tree respects the rule table, is_leaf is sound on such trees); is_leaf is computed over the model's callee lists (subs_t plus derived hidden rules: never less conservative). Partial: positional containment of children holds only outside look-ahead / rematch and is checked by the oracle "
         "as tree containment, not proved. parse_tree_to_dot is not modelled. state<> rules cannot be combined with parse_tree::parse (the tree state is dropped from the pack; does not compile) and are excluded.",
    technique="Lean 4 proof that a stack-machine model of the parse_tree node builder computes the declarative surviving derivation on every model trace (mutual induction over invocation trees); differential real parse_tree::parse vs model (trace and tree); independent Python recomputation of the derivation from the implementation's enter/exit log"),
 }
